@@ -7,6 +7,10 @@ var (
 	// ErrKeyOutOfOrder means keys to create Trie are not ascendingly ordered.
 	ErrKeyOutOfOrder = errors.New("keys not ascending sorted")
 
+	// ErrStepTooLong means that without option InnerPrefix, a branch shared by
+	// several keys is too long to be stored as a 16-bit step(in 4-bit unit).
+	ErrStepTooLong = errors.New("step exceeds 65535 4-bit words")
+
 	// ErrIncompatible means it is trying to unmarshal data from an incompatible
 	// version.
 	ErrIncompatible = errors.New("incompatible with marshaled data")
